@@ -1,5 +1,6 @@
 import Driver.Common
 import LiskVerif.Model.BFT
+import LiskVerif.Model.BFTU32
 import LiskVerif.Gen.Fns
 
 namespace Driver.BFT
@@ -66,7 +67,8 @@ def step1 (s : State) (w : List String) : State × String :=
   | ["block", h, g, mhg, mhp, c] =>
     match parseHeader h g mhg mhp c with
     | some hd =>
-      match process s hd with
+      -- `processU32`: `process` with Go's `uint32` behaviour at height / certified height 2^32-1
+      match processU32 s hd with
       | .ok s' => (s', "ok " ++ dump s')
       | .error _ => (s, "err")
     | none => (s, "bad-op")
@@ -87,7 +89,7 @@ def step1 (s : State) (w : List String) : State × String :=
     | none => (s, "bad-op")
   | ["nextparams", h] =>
     match h.toNat? with
-    | some h => (s, match nextHeightParams s h with | some k => toString k | none => "none")
+    | some h => (s, match nextHeightParamsU32 s h with | some k => toString k | none => "none")
     | none => (s, "bad-op")
   | _ => (s, "bad-op")
 
@@ -111,7 +113,7 @@ def step (d : DState) (w : List String) : DState × String :=
   | ["tryblock", h, g, mhg, mhp, c] =>
     match parseHeader h g mhg mhp c with
     | some hd =>
-      match process d.cur hd with
+      match processU32 d.cur hd with
       | .ok s' => (d, "ok " ++ dump s')
       | .error _ => (d, "err")
     | none => (d, "bad-op")
